@@ -368,7 +368,7 @@ End Reader.
 Inductive tok :=
 | TLit (t : text)          (* these exact characters *)
 | TNum (q : Q)             (* str(float) / repr of a float whose value is q *)
-| TRnd2 (q : Q).           (* repr(round(float(q), 2)) *)
+| TRnd2 (q : Q).           (* repr(round(float(q), 6))  — six decimals since /repo 6b5cf38 (two before; the name is historic) *)
 
 Section Writer.
 Variable cf : smconf.
@@ -528,7 +528,7 @@ End Writer.
 
 (* ---- the rendering relation: a text is a rendering of a token list when literals match exactly and each
    numeric token is a decimal numeral denoting the value (TNum, up to the float-conversion slack tol) or a
-   two-decimal numeral within half a hundredth of it (TRnd2) ---- *)
+   six-decimal numeral within half a millionth of it (TRnd2) ---- *)
 Definition is_num_char (c : Z) : bool :=
   is_digit c || (c =? 43)%Z || (c =? 45)%Z || (c =? 46)%Z || (c =? 101)%Z || (c =? 69)%Z.
 Fixpoint span_num (s : text) : text * text :=
@@ -537,7 +537,8 @@ Fixpoint span_num (s : text) : text * text :=
   | [] => ([], [])
   end.
 Definition num_close (tol v q : Q) : bool := Qle_bool (Qabs (v - q)) (tol * (1 + Qabs q)).
-Definition is_hundredth (x : Q) : bool := Qeq_bool (x * 100) (inject_Z (Qfloor (x * 100))).
+Definition is_millionth (x : Q) : bool := Qeq_bool (x * 1000000) (inject_Z (Qfloor (x * 1000000))).
+Definition rnd_half : Q := 1 # 2000000.            (* half of the last printed digit *)
 
 Fixpoint match_toks (tol : Q) (toks : list tok) (s : text) : bool :=
   match toks with
@@ -552,7 +553,7 @@ Fixpoint match_toks (tol : Q) (toks : list tok) (s : text) : bool :=
   | TRnd2 q :: r =>
       let '(n, s') := span_num s in
       match parse_decimal n with
-      | Some x => is_hundredth x && Qle_bool (Qabs (x - q)) ((1 # 200) + tol) && match_toks tol r s'
+      | Some x => is_millionth x && Qle_bool (Qabs (x - q)) (rnd_half + tol) && match_toks tol r s'
       | None => false
       end
   end.
